@@ -1,8 +1,10 @@
 """C04: check configuration (PROPS_ENTRY, consumed by ./check and gen_manifest.py) and the list of lemmas that make up
 the property file (SPEC_ENTRY, consumed by tools/mkprops.py)."""
-PROPS_ENTRY = {'models': ['Model/Queue.v'],
+PROPS_ENTRY = {'models': ['Model/Queue.v', 'Model/Sound.v'],
  'design_ref': 'DESIGN.md 3 C04',
- 'assumptions': ['LedgerHal is the instrumented platform: every share bounced to a distinct device address, copy-in at share, copy-back at unshare']}
+ 'assumptions': ['LedgerHal is the instrumented platform: every share bounced to a distinct device address, copy-in at share, copy-back at unshare; the driver-side copy of a device-writable buffer is poisoned while it is shared',
+                 'driver level: the token interface of the sound driver (several requests outstanding, polled in any order) is run under this check too '
+                 '(scenario c20snd-nb-*, model Model/Sound.v, monitor 2060 and the ledger lines); its theorems are C20_snd_nb_*']}
 
 SPEC_ENTRY = {'title': 'Each buffer is shared with the device once and unshared once, arguments matching',
  'imports': ['Model.Queue', 'Proofs.QueueInv', 'Proofs.QueueReach', 'Proofs.QueueProps'],
